@@ -400,6 +400,34 @@ pub fn builds(run: &Run) -> Vec<Build> {
             }
         }
     }
+    // medium sets (4, 5, 6, 8 elements) that hold a pair of hash twins (terms the hash cannot tell apart: they tie
+    // wherever elements are ordered or bucketed by hash) next to ordinary elements, in three insertion orders
+    {
+        let (a, b) = (R::word("a"), R::word("b"));
+        let twin_pairs: Vec<(R, R)> = vec![
+            (a.clone(), R::atom(Tag::IVar, "a")),
+            (a.clone(), R::node(Tag::Neg, vec![a.clone()])),
+            (R::node(Tag::Product, vec![a.clone(), b.clone()]), R::pair(Tag::Inh, a.clone(), b.clone())),
+            (R::node(Tag::SetExt, vec![a.clone()]), R::node(Tag::SetInt, vec![a.clone()])),
+            (R::interval(7), R::word("7")),
+        ];
+        for &tag in &[Tag::SetExt, Tag::Conj, Tag::IntExt, Tag::ParConj] {
+            for (x, y) in &twin_pairs {
+                for n in [4usize, 5, 6, 8] {
+                    let mut elems: Vec<R> = vec![x.clone(), y.clone()];
+                    elems.extend((0..n - 2).map(|i| R::word(&format!("m{i}"))));
+                    let rev: Vec<R> = elems.iter().rev().cloned().collect();
+                    let mut rot = elems.clone();
+                    rot.rotate_left(1);
+                    for k in 0..big_keys {
+                        big.push((R::node(tag, elems.clone()), vec![k]));
+                        big.push((R::node(tag, rev.clone()), vec![k + 7]));
+                        big.push((R::node(tag, rot.clone()), vec![k + 13]));
+                    }
+                }
+            }
+        }
+    }
     for r in grown_recipes(&[7, 14, 28]) {
         for k in 0..big_keys.min(4) {
             big.push((r.clone(), vec![k, k + 1]));
